@@ -314,6 +314,16 @@ func init() {
 		if xn != w.tt.F {
 			w.unsupported(fr, "big.Int.Mod of a possibly negative value")
 		}
+		if _, abs := w.ext["absmod"]; abs {
+			if !xm.IsConst() {
+				// sound over-approximation for safety obligations: r = f(x, m) with r < m and (x < m -> r = x)
+				r := w.tt.UF("bigmod", bigW, xm, ym)
+				w.assumeNoCheck(w.tt.Cmp(OpULt, r, ym))
+				w.assumeNoCheck(w.tt.Implies(w.tt.Cmp(OpULt, xm, ym), w.tt.Eq(r, xm)))
+				w.bigSet(recv(args), r, w.tt.F)
+				return recv(args)
+			}
+		}
 		w.bigSet(recv(args), w.tt.Bin(OpURem, xm, ym), w.tt.F)
 		return recv(args)
 	})
